@@ -41,7 +41,7 @@ ASSUMPTIONS = [
     "atomicity: a `with self._condition:` block is one step; the `_is_disposed` test of schedule_absolute and the dt computation are single unlocked steps",
     "the condition variable is one slot (sound given at most one loop thread, which is proved); a timed wait may return at any time; an untimed wait only after notify",
     "PriorityQueue = stably sorted list; integer microseconds on a controlled clock",
-    "schedule_periodic (PeriodicScheduler) and NewThreadScheduler/ThreadPoolScheduler wrappers are exercised by C34/C35, not here",
+    "NewThreadScheduler / ThreadPoolScheduler = one private exit_if_empty EventLoopScheduler per item: each item's private loop is checked against the same model (per-item trace replay) and oracle; the ThreadPoolExecutor is replaced by a stub that runs submitted targets on controlled threads; schedule_periodic is C35's",
 ]
 TRUSTED_EXTRA = ["interleaving controller harness/sched/thr_ctl.py + thr_el.py (event extraction, lock-section classification)"]
 
@@ -95,6 +95,28 @@ def cases(rng, tier):
     yield {"op": "el_seq", "xie": False, "progs": [[["sched", 1, [["dispose"], ["sched", 2, []]]], ["sched", 3, []]], [["rel", 101, 5, []]]]}
     for _ in range(fw.tier_scale(tier, 700, 7000)):
         yield gen_case(rng)
+    for _ in range(fw.tier_scale(tier, 80, 800)):
+        yield gen_private(rng)
+
+
+def gen_private(rng):
+    """NewThreadScheduler / ThreadPoolScheduler: top-level schedule / schedule_relative (tick-only bodies) / cancel / tick"""
+    progs = []
+    for ci in range(rng.choice([1, 1, 2])):
+        ops, mine = [], []
+        for j in range(rng.choice([1, 2, 3, 4])):
+            r = rng.random()
+            if r < 0.6:
+                lbl = 100 * ci + len(mine) + 1
+                body = [["tick", rng.choice([1, 3])]] if rng.random() < 0.3 else []
+                ops.append(["rel", lbl, rng.choice([0, 5, 10]), body] if rng.random() < 0.5 else ["sched", lbl, body])
+                mine.append(lbl)
+            elif r < 0.8 and mine:
+                ops.append(["cancel", rng.choice(mine)])
+            else:
+                ops.append(["tick", rng.choice([1, 5, 10])])
+        progs.append(ops)
+    return {"op": "private_loops", "kind": rng.choice(["newthread", "threadpool"]), "progs": progs}
 
 
 def _size(prog):
@@ -112,6 +134,10 @@ def impl(case):
 
     if case["op"] == "threads":
         return _one(case["cfg"], {int(i): int(t) for i, t in case.get("pre", [])})[1]
+    if case["op"] == "private_loops":
+        # default schedule on NewThreadScheduler / ThreadPoolScheduler: oracle + per-item structural problems (the per-item model
+        # replay runs in `extra`)
+        return _one({"kind": case["kind"], "xie": True, "progs": case["progs"]}, {})[1]
     cfg = {"progs": case["progs"], "xie": case["xie"]}
     res = thr_el.run_threads(cfg, {})
     if res["status"] == "hang":
@@ -147,6 +173,8 @@ def _has(prog, kinds):
 
 
 def nontrivial(case, out):
+    if case["op"] == "private_loops":
+        return sum(1 for p in case["progs"] for o in p if o[0] in ("sched", "rel")) >= 2
     if case["op"] != "el_seq":
         return True
     ev = out["events"]
@@ -155,6 +183,9 @@ def nontrivial(case, out):
 
 
 def bucket(case, out):
+    if case["op"] == "private_loops":
+        yield "private-loops:" + case["kind"]
+        return
     if case["op"] != "el_seq":
         return
     yield "xie" if case["xie"] else "no-xie"
@@ -197,8 +228,19 @@ def _one(cfg, pre):
         res = thr_el.run_threads(cfg, pre)
     if res["status"] == "hang":
         raise RuntimeError(f"controller hang cfg={cfg} pre={pre}")
-    trace, problems, _ = thr_el.labels_of(res)
-    return res, {"status": res["status"], "oracle": thr_el.oracle(cfg, res), "problems": problems, "trace": trace,
+    if cfg.get("kind", "el") == "el":
+        trace, problems, _ = thr_el.labels_of(res)
+        traces = [{"xie": cfg["xie"], "progs": cfg["progs"], "trace": trace}]
+        verdict = thr_el.oracle(cfg, res)
+    else:
+        # NewThreadScheduler / ThreadPoolScheduler: one private exit_if_empty loop per item, each replayed on its own
+        traces, problems = [], []
+        for lbl, (icfg, ires) in sorted(thr_el.split_instances(cfg, res).items()):
+            tr, pb, _ = thr_el.labels_of(ires)
+            traces.append({"xie": True, "progs": icfg["progs"], "trace": tr})
+            problems += [f"item {lbl}: {x}" for x in pb]
+        verdict = thr_el.oracle_private_loops(cfg, res)
+    return res, {"status": res["status"], "oracle": verdict, "problems": problems, "trace": traces,
                  "nchoices": len(res["choices"]), "steps": res["steps"]}
 
 
@@ -260,6 +302,9 @@ def thread_configs(rng, tier):
         ("timed", {"xie": True, "progs": [[["rel", 1, 10, []], ["sched", 2, [["rel", 3, 5, []]]]]]}, 1 if q else 2),
         ("two-clients", {"xie": False, "progs": [[["sched", 1, []]], [["sched", 101, []], ["dispose"]]]}, 1 if q else 2),
         ("two-clients-xie", {"xie": True, "progs": [[["sched", 1, []]], [["rel", 101, 5, []]]]}, 1 if q else 2),
+        # NewThreadScheduler / ThreadPoolScheduler: a private exit_if_empty EventLoopScheduler per item
+        ("newthread", {"kind": "newthread", "xie": True, "progs": [[["sched", 1, [["tick", 3]]], ["rel", 2, 10, []], ["cancel", 2]]]}, 1),
+        ("threadpool", {"kind": "threadpool", "xie": True, "progs": [[["rel", 1, 5, []]], [["sched", 101, []], ["cancel", 101]]]}, 1),
     ]
     for j in range(2):
         for _ in range(50):
@@ -332,8 +377,9 @@ def extra(rng, tier):
                 failures.append(fw.Failure("correspondence", case, {"atomicity": r["problems"][:5]}))
             if "trace" in r:
                 ndistinct[name] = ndistinct.get(name, 0) + 1
-                reqs.append({"op": "el_trace", "xie": cfg["xie"], "clock": 0, "progs": cfg["progs"], "trace": r["trace"]})
-                owners.append(case)
+                for tr in r["trace"]:
+                    reqs.append({"op": "el_trace", "xie": tr["xie"], "clock": 0, "progs": tr["progs"], "trace": tr["trace"]})
+                    owners.append(case)
     pf = []
     if reqs:
         try:
